@@ -34,7 +34,13 @@ def eval_path(fnode, e, at, node_paths=None, depth=5):
     if isinstance(e, ast.Call):
         nm = A.call_name(e)
         if nm == 'path_for' and A.call_receiver(e) is not None:
-            r = A.unparse(A.call_receiver(e))
+            rc = A.call_receiver(e)
+            if isinstance(rc, ast.Call) and '@resolve' in node_paths:
+                # path_for() of a node that a call returned
+                got = node_paths['@resolve'](rc)
+                if got is not None:
+                    return list(got)
+            r = A.unparse(rc)
             return list(node_paths.get(r, [('node', r)]))
         if nm in ('tuple', 'list') and len(e.args) == 1:
             return eval_path(fnode, e.args[0], at, node_paths, depth)
